@@ -1,3 +1,296 @@
-(* placeholder: theorems follow *)
-From CC Require Import Theory.Field Model.Network.
-Example C05_model_runs : True. Proof. exact I. Qed.
+(* C05 — power conservation (Tellegen) and physically right signs.
+   "In every solved circuit the complex powers of all elements sum to zero (ideal sources and passive elements in
+    the passive sign convention, linear sources counted as delivered power), a resistor's power is real,
+    non-negative and equals |I|^2*R, an inductor's is purely reactive with Q >= 0 and a capacitor's purely reactive
+    with Q <= 0.  Reported power equals V*conj(I) for RMS phasors, one half of that for peak phasors, V*I for DC,
+    and v(t)*i(t) for time-domain and transient results."
+   Statements only; every proof is [exact <lemma>].  Model: Model/Network.v (get_power of Network/solution.py),
+   power formulas of Circuit/solution.py in Theory/Tellegen.v. *)
+From Coq Require Import List Bool ZArith NArith QArith Qcanon.
+From CC Require Import Theory.Field Theory.Complex Theory.Labels Model.Network Theory.Spec Theory.Mna
+  Theory.MnaComplete Theory.Api Theory.Tellegen Theory.Ordered Theory.F7.
+Import ListNotations.
+
+(* ================= Part 1: conservation, generic in the field ================= *)
+
+(* Tellegen: ANY potentials against ANY flows obeying KCL, through any additive map g (identity, conjugation, ...) *)
+Theorem C05_tellegen : forall (K : fops) (KOK : fops_ok K) (bs : list (branch K)) (phi : label -> K) (j : branch K -> K),
+  (forall node, kcl_sum bs j node = f0 K) ->
+  forall g, additive g -> sumF (fun b => fmul K (bvolt phi b) (g (j b))) bs = f0 K.
+Proof. exact tellegen. Qed.
+Print Assumptions C05_tellegen.
+
+Theorem C05_conj_additive : forall (K : fops) (KOK : fops_ok K), additive (fconj K).
+Proof. exact conj_additive. Qed.
+
+(* [bpower n x b] is exactly what get_power returns for branch b ... *)
+Theorem C05_reported_power : forall (K : fops) (KOK : fops_ok K) (n : network K) (WF : wf n) (x : list K) b,
+  In b (branches n) -> get_power {| s_net := n; s_x := x |} (bid b) = Ok (bpower n x b).
+Proof. exact api_power. Qed.
+Print Assumptions C05_reported_power.
+
+(* ... and in every solved circuit the reported complex powers sum to zero, the term of a linear source
+   (reported in the generator direction) entering with the sign -1 = delivered power. *)
+Theorem C05_balance : forall (K : fops) (KOK : fops_ok K) (n : network K) (x : list K), wf n -> solves n x ->
+  sumF (fun b => fmul K (psign b) (bpower n x b)) (branches n) = f0 K.
+Proof. exact power_balance. Qed.
+Print Assumptions C05_balance.
+
+(* the sign and the power, spelled out *)
+Theorem C05_psign_def : forall (K : fops) (b : branch K),
+  psign b = if is_linear_source (el b) then fopp K (f1 K) else f1 K.
+Proof. reflexivity. Qed.
+Theorem C05_bpower_def : forall (K : fops) (n : network K) (x : list K) (b : branch K),
+  bpower n x b = fmul K (bvolt (phi_of n x) b) (fconj K (reported n x b)).
+Proof. reflexivity. Qed.
+
+(* ================= Part 2: signs, complex numbers over an ordered field ================= *)
+
+Theorem C05_Qc_ordered : ofield_ok Qcops Qcle.
+Proof. exact Qc_ofield_ok. Qed.
+Print Assumptions C05_Qc_ordered.
+
+(* passive impedance branch (Z = 0, the short circuit, included):  S = Z |I|^2 *)
+Theorem C05_impedance_power : forall (R : fops) (ROK : fops_ok R) (le : R -> R -> Prop) (OOK : ofield_ok R le)
+  (n : network (Cx R)) (x : list (Cx R)) (b : branch (Cx R)) nm k z,
+  wf n -> solves n x -> In b (branches n) -> el b = ZV nm k z (f0 (Cx R)) ->
+  bpower n x b = fmul (Cx R) z (ofreal (cxnorm2 R (reported n x b))).
+Proof. exact impedance_power. Qed.
+Print Assumptions C05_impedance_power.
+
+(* for Z <> 0 this holds of every vector x, solved or not *)
+Theorem C05_impedance_power_nz : forall (R : fops) (ROK : fops_ok R) (le : R -> R -> Prop) (OOK : ofield_ok R le)
+  (n : network (Cx R)) (x : list (Cx R)) (b : branch (Cx R)) nm k z,
+  z <> f0 (Cx R) -> el b = ZV nm k z (f0 (Cx R)) ->
+  bpower n x b = fmul (Cx R) z (ofreal (cxnorm2 R (reported n x b))).
+Proof. exact impedance_power_nz. Qed.
+
+Theorem C05_resistor : forall (R : fops) (ROK : fops_ok R) (le : R -> R -> Prop) (OOK : ofield_ok R le)
+  (n : network (Cx R)) (x : list (Cx R)) (b : branch (Cx R)) nm k r,
+  wf n -> solves n x -> In b (branches n) -> el b = ZV nm k (ofreal r) (f0 (Cx R)) -> le (f0 R) r ->
+  im (bpower n x b) = f0 R /\ le (f0 R) (re (bpower n x b))
+  /\ re (bpower n x b) = fmul R r (cxnorm2 R (reported n x b)).
+Proof. exact resistor_power. Qed.
+Print Assumptions C05_resistor.
+
+Theorem C05_inductor : forall (R : fops) (ROK : fops_ok R) (le : R -> R -> Prop) (OOK : ofield_ok R le)
+  (n : network (Cx R)) (x : list (Cx R)) (b : branch (Cx R)) nm k wl,
+  wf n -> solves n x -> In b (branches n) -> el b = ZV nm k (oimag wl) (f0 (Cx R)) -> le (f0 R) wl ->
+  re (bpower n x b) = f0 R /\ le (f0 R) (im (bpower n x b))
+  /\ im (bpower n x b) = fmul R wl (cxnorm2 R (reported n x b)).
+Proof. exact inductor_power. Qed.
+Print Assumptions C05_inductor.
+
+(* passive admittance branch:  S = conj(Y) |V|^2  — of every vector x *)
+Theorem C05_admittance_power : forall (R : fops) (ROK : fops_ok R) (le : R -> R -> Prop) (OOK : ofield_ok R le)
+  (n : network (Cx R)) (x : list (Cx R)) (b : branch (Cx R)) nm k y,
+  el b = YI nm k y (f0 (Cx R)) ->
+  bpower n x b = fmul (Cx R) (fconj (Cx R) y) (ofreal (cxnorm2 R (bvolt (phi_of n x) b))).
+Proof. exact admittance_power. Qed.
+Print Assumptions C05_admittance_power.
+
+Theorem C05_capacitor : forall (R : fops) (ROK : fops_ok R) (le : R -> R -> Prop) (OOK : ofield_ok R le)
+  (n : network (Cx R)) (x : list (Cx R)) (b : branch (Cx R)) nm k wc,
+  el b = YI nm k (oimag wc) (f0 (Cx R)) -> le (f0 R) wc ->
+  re (bpower n x b) = f0 R /\ le (im (bpower n x b)) (f0 R)
+  /\ im (bpower n x b) = fopp R (fmul R wc (cxnorm2 R (bvolt (phi_of n x) b))).
+Proof. exact capacitor_power. Qed.
+Print Assumptions C05_capacitor.
+
+Theorem C05_conductance : forall (R : fops) (ROK : fops_ok R) (le : R -> R -> Prop) (OOK : ofield_ok R le)
+  (n : network (Cx R)) (x : list (Cx R)) (b : branch (Cx R)) nm k g,
+  el b = YI nm k (ofreal g) (f0 (Cx R)) -> le (f0 R) g ->
+  im (bpower n x b) = f0 R /\ le (f0 R) (re (bpower n x b))
+  /\ re (bpower n x b) = fmul R g (cxnorm2 R (bvolt (phi_of n x) b)).
+Proof. exact conductor_power. Qed.
+Print Assumptions C05_conductance.
+
+(* ================= Part 3: the solution kinds of Circuit/solution.py ================= *)
+
+Theorem C05_power_defs : forall (K : fops) (half v i : K) (T : Type) (vt it : T -> K) (t : T),
+  power_rms v i = fmul K v (fconj K i)
+  /\ power_peak half v i = fmul K (fmul K half v) (fconj K i)
+  /\ power_dc v i = fmul K v i
+  /\ power_td vt it t = fmul K (vt t) (it t).
+Proof. intros. repeat split. Qed.
+
+(* get_power of the network solution is the RMS formula applied to the reported voltage and current *)
+Theorem C05_bpower_rms : forall (K : fops) (n : network K) (x : list K) (b : branch K),
+  bpower n x b = power_rms (bvolt (phi_of n x) b) (reported n x b).
+Proof. exact bpower_rms. Qed.
+
+(* 1/2 V conj(I) of peak phasors = V conj(I) of the RMS phasors V/sqrt2, I/sqrt2 *)
+Theorem C05_peak_rms : forall (K : fops) (KOK : fops_ok K) (half s2 v i : K),
+  fadd K half half = f1 K -> fmul K s2 s2 = fadd K (f1 K) (f1 K) -> fconj K s2 = s2 -> s2 <> f0 K ->
+  power_peak half v i = power_rms (fdiv K v s2) (fdiv K i s2).
+Proof. exact peak_rms. Qed.
+Print Assumptions C05_peak_rms.
+
+Theorem C05_balance_peak : forall (K : fops) (KOK : fops_ok K) (half : K) (n : network K) (x : list K),
+  wf n -> solves n x ->
+  sumF (fun b => fmul K (psign b) (power_peak half (bvolt (phi_of n x) b) (reported n x b))) (branches n) = f0 K.
+Proof. exact power_balance_peak. Qed.
+Print Assumptions C05_balance_peak.
+
+Theorem C05_balance_rms : forall (K : fops) (KOK : fops_ok K) (s2 : K) (n : network K) (x : list K),
+  fconj K s2 = s2 -> s2 <> f0 K -> wf n -> solves n x ->
+  sumF (fun b => fmul K (psign b) (power_rms (fdiv K (bvolt (phi_of n x) b) s2) (fdiv K (reported n x b) s2)))
+       (branches n) = f0 K.
+Proof. exact power_balance_rms. Qed.
+Print Assumptions C05_balance_rms.
+
+(* DC: V*I without conjugation (over any field, the reals in particular) ... *)
+Theorem C05_balance_dc : forall (K : fops) (KOK : fops_ok K) (n : network K) (x : list K), wf n -> solves n x ->
+  sumF (fun b => fmul K (psign b) (power_dc (bvolt (phi_of n x) b) (reported n x b))) (branches n) = f0 K.
+Proof. exact power_balance_dc. Qed.
+Print Assumptions C05_balance_dc.
+
+(* ... and, for real V and I, V.real*I.real is the complex power *)
+Theorem C05_dc_real : forall (R : fops) (ROK : fops_ok R) (u c : Cx R), im u = f0 R -> im c = f0 R ->
+  power_rms u c = ofreal (power_dc (K:=R) (re u) (re c)).
+Proof. exact dc_power_real. Qed.
+Print Assumptions C05_dc_real.
+
+(* time domain / transient: pointwise products; they balance at every instant whenever the flows obey KCL at
+   every instant (passive sign convention throughout) *)
+Theorem C05_balance_td : forall (K : fops) (KOK : fops_ok K) (T : Type) (bs : list (branch K))
+  (phi : T -> label -> K) (j : T -> branch K -> K),
+  (forall t node, kcl_sum bs (j t) node = f0 K) ->
+  forall t, sumF (fun b => power_td (fun t => bvolt (phi t) b) (fun t => j t b) t) bs = f0 K.
+Proof. exact power_balance_td. Qed.
+Print Assumptions C05_balance_td.
+
+(* superposition of harmonics x(t) = Σ_k Re (X_k e_k(t)) of per-harmonic solutions on a common graph *)
+Theorem C05_balance_td_harmonics : forall (R : fops) (ROK : fops_ok R) (le : R -> R -> Prop) (OOK : ofield_ok R le)
+  (A : Type) (n1 n2 : A -> label) (T H : Type) (e : H -> T -> Cx R)
+  (es : list A) (hs : list H) (Phi : H -> label -> Cx R) (J : H -> A -> Cx R),
+  (forall k, In k hs -> forall node, gkcl n1 n2 es (J k) node = f0 (Cx R)) ->
+  forall t, sumF (fun b => fmul R (td_signal e hs (fun k => gvolt n1 n2 (Phi k) b) t)
+                                  (td_signal e hs (fun k => J k b) t)) es = f0 R.
+Proof. exact td_power_balance. Qed.
+Print Assumptions C05_balance_td_harmonics.
+
+(* ================= non-vacuity: a concrete network over the Gaussian rationals ================= *)
+Definition L (z : Z) : label := [Z.to_N z].
+Definition ex_net : network CQ :=
+  {| zero := L 48;
+     branches := [ Build_branch (L 49) (L 48) (voltage_source (L 86) (cq 10 1 0 1) (cq 0 1 0 1));   (* ideal V  *)
+                   Build_branch (L 49) (L 50) (resistor (L 82) (ofreal (R:=Qcops) (qc 2 1)));                 (* R = 2    *)
+                   Build_branch (L 50) (L 51) (impedance (L 76) (oimag (R:=Qcops) (qc 3 1)));                 (* wL = 3   *)
+                   Build_branch (L 51) (L 48) (admittance (L 67) (oimag (R:=Qcops) (qc 1 2)));                (* wC = 1/2 *)
+                   Build_branch (L 50) (L 48) (conductor (L 71) (ofreal (R:=Qcops) (qc 1 3)));                (* G = 1/3  *)
+                   Build_branch (L 51) (L 48) (voltage_source (L 85) (cq 5 1 1 1) (cq 1 1 0 1));   (* linear V *)
+                   Build_branch (L 48) (L 50) (current_source (L 73) (cq 1 1 1 1) (cq 0 1 0 1));   (* ideal I  *)
+                   Build_branch (L 50) (L 48) (current_source (L 74) (cq 2 1 0 1) (cq 1 4 0 1)) ]  (* linear I *) |}.
+
+Definition ex_x : list CQ := match solve_network ex_net with Ok s => s_x s | Err _ => [] end.
+Definition ex_b (k : nat) : branch CQ := nth k (branches ex_net) (Build_branch [] [] (short_circuit [])).
+
+Example C05_example_wf : wfb ex_net = true.
+Proof. vm_compute. reflexivity. Qed.
+Example C05_example_solvedb : solvedb ex_net = true.
+Proof. vm_compute. reflexivity. Qed.
+Example C05_example_solved : wf ex_net /\ solves ex_net ex_x.
+Proof. destruct (solvedb_ok CQ_ok ex_net C05_example_wf C05_example_solvedb) as [s [E [W [S _]]]].
+  unfold ex_x. rewrite E. split; assumption. Qed.
+
+(* the balance, evaluated: it is zero, with linear sources present (sign -1) and non-zero terms *)
+Example C05_example_balance :
+  feqb CQ (sumF (fun b => fmul CQ (psign b) (bpower ex_net ex_x b)) (branches ex_net)) (f0 CQ) = true.
+Proof. vm_compute. reflexivity. Qed.
+Example C05_example_signs : map (fun b => is_linear_source (el b)) (branches ex_net)
+  = [false; false; false; false; false; true; false; true].
+Proof. vm_compute. reflexivity. Qed.
+Example C05_example_nonzero : forallb (fun b => negb (feqb CQ (bpower ex_net ex_x b) (f0 CQ))) (branches ex_net) = true.
+Proof. vm_compute. reflexivity. Qed.
+(* without the sign convention the sum is NOT zero *)
+Example C05_example_unsigned_sum_nonzero :
+  feqb CQ (sumF (fun b => bpower ex_net ex_x b) (branches ex_net)) (f0 CQ) = false.
+Proof. vm_compute. reflexivity. Qed.
+Example C05_example_balance_by_theorem :
+  sumF (fun b => fmul CQ (psign b) (bpower ex_net ex_x b)) (branches ex_net) = f0 CQ.
+Proof. exact (C05_balance CQ CQ_ok ex_net ex_x (proj1 C05_example_solved) (proj2 C05_example_solved)). Qed.
+
+Example C05_example_le_2 : Qcle 0 (qc 2 1). Proof. vm_compute. discriminate. Qed.
+Example C05_example_le_3 : Qcle 0 (qc 3 1). Proof. vm_compute. discriminate. Qed.
+Example C05_example_le_12 : Qcle 0 (qc 1 2). Proof. vm_compute. discriminate. Qed.
+Example C05_example_le_13 : Qcle 0 (qc 1 3). Proof. vm_compute. discriminate. Qed.
+
+(* the hypotheses of the sign theorems are met by the branches of this network *)
+Example C05_example_resistor :
+  im (bpower ex_net ex_x (ex_b 1)) = 0%Qc /\ Qcle 0 (re (bpower ex_net ex_x (ex_b 1)))
+  /\ re (bpower ex_net ex_x (ex_b 1)) = Qcmult (qc 2 1) (cxnorm2 Qcops (reported ex_net ex_x (ex_b 1))).
+Proof. apply (C05_resistor Qcops Qcops_ok Qcle Qc_ofield_ok ex_net ex_x (ex_b 1) (L 82) k_resistor (qc 2 1)
+               (proj1 C05_example_solved) (proj2 C05_example_solved)).
+  - simpl. tauto.
+  - reflexivity.
+  - exact C05_example_le_2. Qed.
+Example C05_example_inductor :
+  re (bpower ex_net ex_x (ex_b 2)) = 0%Qc /\ Qcle 0 (im (bpower ex_net ex_x (ex_b 2)))
+  /\ im (bpower ex_net ex_x (ex_b 2)) = Qcmult (qc 3 1) (cxnorm2 Qcops (reported ex_net ex_x (ex_b 2))).
+Proof. apply (C05_inductor Qcops Qcops_ok Qcle Qc_ofield_ok ex_net ex_x (ex_b 2) (L 76) k_impedance (qc 3 1)
+               (proj1 C05_example_solved) (proj2 C05_example_solved)).
+  - simpl. tauto.
+  - reflexivity.
+  - exact C05_example_le_3. Qed.
+Example C05_example_capacitor :
+  re (bpower ex_net ex_x (ex_b 3)) = 0%Qc /\ Qcle (im (bpower ex_net ex_x (ex_b 3))) 0
+  /\ im (bpower ex_net ex_x (ex_b 3)) = Qcopp (Qcmult (qc 1 2) (cxnorm2 Qcops (bvolt (phi_of ex_net ex_x) (ex_b 3)))).
+Proof. apply (C05_capacitor Qcops Qcops_ok Qcle Qc_ofield_ok ex_net ex_x (ex_b 3) (L 67) k_admittance (qc 1 2)).
+  - reflexivity.
+  - exact C05_example_le_12. Qed.
+Example C05_example_conductance :
+  im (bpower ex_net ex_x (ex_b 4)) = 0%Qc /\ Qcle 0 (re (bpower ex_net ex_x (ex_b 4)))
+  /\ re (bpower ex_net ex_x (ex_b 4)) = Qcmult (qc 1 3) (cxnorm2 Qcops (bvolt (phi_of ex_net ex_x) (ex_b 4))).
+Proof. apply (C05_conductance Qcops Qcops_ok Qcle Qc_ofield_ok ex_net ex_x (ex_b 4) (L 71) k_conductor (qc 1 3)).
+  - reflexivity.
+  - exact C05_example_le_13. Qed.
+(* the numbers: P_R = 2|I|^2 > 0, Q_L > 0, Q_C < 0 strictly in this network *)
+Example C05_example_strict :
+  negb (feqb Qcops (re (bpower ex_net ex_x (ex_b 1))) 0%Qc) && negb (feqb Qcops (im (bpower ex_net ex_x (ex_b 2))) 0%Qc)
+  && negb (feqb Qcops (im (bpower ex_net ex_x (ex_b 3))) 0%Qc) = true.
+Proof. vm_compute. reflexivity. Qed.
+
+(* peak/RMS.  [half + half = 1] is met in CQ; a square root of 2 does not exist in the Gaussian rationals, so the
+   remaining hypotheses are shown satisfiable in the second executable instance F7[i] (Theory/F7.v: 3*3 = 2 mod 7,
+   non-trivial conjugation), where a small network is solved too. *)
+Example C05_example_half : fadd CQ (cq 1 2 0 1) (cq 1 2 0 1) = f1 CQ.
+Proof. apply (Keqb CQ CQ_ok). vm_compute. reflexivity. Qed.
+Definition s2_7 : CF7 := (A3, A0).
+Definition half_7 : CF7 := (A4, A0).
+Example C05_example_sqrt2 :
+  fadd CF7 half_7 half_7 = f1 CF7 /\ fmul CF7 s2_7 s2_7 = fadd CF7 (f1 CF7) (f1 CF7)
+  /\ fconj CF7 s2_7 = s2_7 /\ s2_7 <> f0 CF7.
+Proof. repeat split; discriminate. Qed.
+Example C05_example_conj_nontrivial : fconj CF7 (A1, A2) <> (A1, A2).
+Proof. discriminate. Qed.
+Definition c7 (a b : F7) : CF7 := (a, b).
+Definition ex_net7 : network CF7 :=
+  {| zero := L 48;
+     branches := [ Build_branch (L 49) (L 48) (voltage_source (L 86) (c7 A3 A1) (c7 A0 A0));
+                   Build_branch (L 49) (L 50) (resistor (L 82) (c7 A2 A0));
+                   Build_branch (L 50) (L 48) (impedance (L 76) (c7 A0 A3));
+                   Build_branch (L 50) (L 48) (current_source (L 74) (c7 A2 A5) (c7 A1 A0)) ] |}.
+Definition ex_x7 : list CF7 := match solve_network ex_net7 with Ok s => s_x s | Err _ => [] end.
+Example C05_example7_solved : wf ex_net7 /\ solves ex_net7 ex_x7.
+Proof. assert (W : wfb ex_net7 = true) by (vm_compute; reflexivity).
+  assert (Sb : solvedb ex_net7 = true) by (vm_compute; reflexivity).
+  destruct (solvedb_ok CF7_ok ex_net7 W Sb) as [s [E [W' [S _]]]].
+  unfold ex_x7. rewrite E. split; assumption. Qed.
+Example C05_example7_peak_rms : forall b,
+  power_peak half_7 (bvolt (phi_of ex_net7 ex_x7) b) (reported ex_net7 ex_x7 b)
+  = power_rms (fdiv CF7 (bvolt (phi_of ex_net7 ex_x7) b) s2_7) (fdiv CF7 (reported ex_net7 ex_x7 b) s2_7).
+Proof. intros b. destruct C05_example_sqrt2 as [H1 [H2 [H3 H4]]].
+  exact (C05_peak_rms CF7 CF7_ok half_7 s2_7 _ _ H1 H2 H3 H4). Qed.
+Example C05_example7_balance_rms :
+  sumF (fun b => fmul CF7 (psign b) (power_rms (fdiv CF7 (bvolt (phi_of ex_net7 ex_x7) b) s2_7)
+                                               (fdiv CF7 (reported ex_net7 ex_x7 b) s2_7))) (branches ex_net7) = f0 CF7.
+Proof. destruct C05_example_sqrt2 as [_ [_ [H3 H4]]].
+  exact (C05_balance_rms CF7 CF7_ok s2_7 ex_net7 ex_x7 H3 H4 (proj1 C05_example7_solved) (proj2 C05_example7_solved)). Qed.
+Example C05_example7_nonzero :
+  forallb (fun b => negb (feqb CF7 (bpower ex_net7 ex_x7 b) (f0 CF7))) (branches ex_net7) = true.
+Proof. vm_compute. reflexivity. Qed.
+Example C05_example_balance_peak :
+  feqb CQ (sumF (fun b => fmul CQ (psign b) (power_peak (cq 1 2 0 1) (bvolt (phi_of ex_net ex_x) b) (reported ex_net ex_x b)))
+                (branches ex_net)) (f0 CQ) = true.
+Proof. vm_compute. reflexivity. Qed.
